@@ -119,7 +119,7 @@ def check(spec, ctx):
                             "group matched %r (span %r)" % (
                                 pattern, kind, text, gi, got, ref.texts[gi], ref.spans[gi]))
         a, b = ref.spans[gi]
-        if a < n < b:
+        if gi >= 1 and a < n < b:
             straddle += 1
     wrapped = ref.end > n
     classes = ["match", "kind:" + kind]
